@@ -81,6 +81,10 @@ pub struct COutput {
     pub cost_unbounded: Result<ubounded, SimplicityErr>,
     /// result of evalTCOExpression, if requested and the program was accepted
     pub eval: Option<SimplicityErr>,
+    /// per DAG node (C numbering, hidden nodes included): commitment root, annotated root, hidden?
+    pub node_cmr: Vec<[u8; 32]>,
+    pub node_amr: Vec<[u8; 32]>,
+    pub node_hidden: Vec<bool>,
 }
 
 pub struct EvalRequest<'a> {
@@ -93,7 +97,7 @@ pub struct EvalRequest<'a> {
 /// Run the C pipeline: decode, close, infer types, fill witness, close, AMR, IHR uniqueness,
 /// bounds, 1->1 check, optionally evaluation.
 pub fn run(program: &[u8], witness: &[u8], eval: Option<EvalRequest>) -> COutput {
-    let mut out = COutput { rejected: None, len: 0, cmr: [0; 32], amr: [0; 32], ihr: [0; 32], bounds: Err(SimplicityErr::NoError), cost_unbounded: Err(SimplicityErr::NoError), eval: None };
+    let mut out = COutput { rejected: None, len: 0, cmr: [0; 32], amr: [0; 32], ihr: [0; 32], bounds: Err(SimplicityErr::NoError), cost_unbounded: Err(SimplicityErr::NoError), eval: None, node_cmr: vec![], node_amr: vec![], node_hidden: vec![] };
     let mut prog_stream = CBitstream::from(program);
     let mut wit_stream = CBitstream::from(witness);
     let mut census = CCombinatorCounters::default();
@@ -131,6 +135,12 @@ pub fn run(program: &[u8], witness: &[u8], eval: Option<EvalRequest>) -> COutput
         let mut analyses = vec![CAnalyses::default(); len];
         simplicity_computeAnnotatedMerkleRoot(analyses.as_mut_ptr(), dag, type_dag, len);
         out.amr = root_bytes(&analyses[len - 1].annotated_merkle_root);
+        for i in 0..len {
+            let n = &*dag.add(i);
+            out.node_cmr.push(root_bytes(&n.cmr));
+            out.node_amr.push(root_bytes(&analyses[i].annotated_merkle_root));
+            out.node_hidden.push(n.tag == simplicity::ffi::tests::ffi::dag::CTag::HIDDEN);
+        }
         let mut ihr = Default::default();
         if let Err(e) = simplicity_verifyNoDuplicateIdentityHashes(&mut ihr, dag, type_dag, len).into_result() {
             out.rejected = Some((Stage::IhrUniqueness, e));
